@@ -32,7 +32,7 @@ type Case struct {
 
 // Stats is what a run observed (for the evidence only).
 type Stats struct {
-	Reached, AcceptedData, AcceptedTpl, Rejected, Records, Judged int
+	Reached, AcceptedData, AcceptedTpl, Rejected, Records, Judged, SecondSet int
 }
 
 var (
@@ -119,8 +119,15 @@ func runCase(c Case, st *Stats) *ev.Failure {
 		}
 		setID := uint16(pkt[16])<<8 | uint16(pkt[17])
 		setLen := int(pkt[18])<<8 | int(pkt[19])
-		consistent := int(h.Length) == len(pkt) && setLen == len(pkt)-16
+		// the set body is what the set's own length field covers; further sets may follow it
+		consistent := int(h.Length) == len(pkt) && setLen >= 4 && setLen <= len(pkt)-16
 		body := pkt[20:]
+		if consistent {
+			body = pkt[20 : 16+setLen]
+			if setLen < len(pkt)-16 {
+				st.SecondSet++
+			}
+		}
 		if setID == 2 {
 			st.AcceptedTpl++
 			t, f := glue.CheckTemplateMsg(dr.Msg, body)
@@ -273,9 +280,18 @@ func mutate(t *rapid.T, m []byte, minRec int) ([]byte, string) {
 		}
 		class = "setid_tamper"
 	case 8:
+		// a second set behind the first one, whose own length field stays as it is: a copy of the first
+		// set (the same template once more), or a short set of arbitrary content
 		extra := []byte{1, 0, 0, byte(4 + rapid.IntRange(0, 8).Draw(t, "s2len"))}
 		extra = append(extra, gen.BytesN(t, int(extra[3])-4, "s2")...)
+		if len(m) > 20 && rapid.Bool().Draw(t, "s2copy") {
+			extra = append([]byte(nil), m[16:]...)
+		}
 		m = append(m, extra...)
+		if len(m) <= 65535 {
+			m[2], m[3] = byte(len(m)>>8), byte(len(m))
+			return m, "second_set"
+		}
 		class = "second_set"
 	case 9:
 		if len(m) >= 4 {
@@ -371,6 +387,9 @@ func classify(c Case, st *Stats) []string {
 	}
 	if st.Records > 1 {
 		cl = append(cl, "multi_record")
+	}
+	if st.SecondSet > 0 {
+		cl = append(cl, "accepted_message_with_a_second_set")
 	}
 	return cl
 }
